@@ -18,7 +18,7 @@ META = {
              'non-trivial = non-collinear curve (some consecutive triple has a cross product above the rounding floor)'),
     'require': {'curvature': 500, 'dfdt': 500, 'menger': 500, 'lmethod.get_knee': 500, 'lmethod.knee': 500, 'nontrivial': 1500},
     'scale': {'quick': 1, 'thorough': 150},
-    'quick_cases': 5000, 'thorough_cases': 800000,
+    'quick_cases': 9000, 'thorough_cases': 800000,
     'assumptions': ['lmethod.knee with limit <= 3 is outside the domain (the truncated curve falls below the 5 points the method needs)',
                     'the L-method error is the library\'s documented length-weighted form (weight*sqrt(weight*RSS) / weight*RSS)',
                     'uts.gradient / uts.thresholding (installed dependency) are taken as given'],
@@ -220,7 +220,7 @@ def setup(ctx, mods):
 def cases(rng, tier, shard, nshards):
     total = META['quick_cases'] if tier == 'quick' else META['thorough_cases']
     for i in range(shard_count(total, shard, nshards)):
-        det = pick(rng, DETS)
+        det = pick(rng, DETS + ['lmethod.knee', 'lmethod.knee'])      # the refinement loop gets the largest share
         nmin = 5 if det.startswith('lmethod') else 3
         r = rng.random()
         if tier == 'thorough' and r < 0.004:
@@ -229,6 +229,9 @@ def cases(rng, tier, shard, nshards):
             pts, meta = gen.curve(rng, nmax=300, nmin=80)
         else:
             pts, meta = gen.curve(rng, nmax=80, nmin=nmin)
+        if det == 'lmethod.knee' and rng.random() < 0.25:
+            # degenerate curves (all split errors equal up to rounding) are where cutoff cycles of length >= 3 concentrate
+            pts, meta = gen.curve(rng, nmax=60, nmin=8, family=pick(rng, ['collinear0', 'const', 'smallint']))
         if len(pts) < nmin:
             pts, meta = gen.curve(rng, nmax=80, nmin=nmin, family='mrc')
         if float(np.max(np.abs(pts))) > 1e15:
@@ -236,7 +239,7 @@ def cases(rng, tier, shard, nshards):
             pts[:, 1] = pts[:, 1] / 1e4
         yield {'points': pts, 'family': meta['family'], 'layout': gen.pick_layout(rng, pts), 'detector': det,
                'fit': pick(rng, ['bestfit', 'pointfit']), 'cost': pick(rng, ['rmse', 'rss']),
-               'refinement': pick(rng, ['none', 'original', 'adjusted']), 'limit': int(rng.integers(4, 13))}
+               'refinement': pick(rng, ['none', 'original', 'original', 'original', 'adjusted', 'adjusted']), 'limit': int(rng.integers(4, 13))}
 
 
 def run_case(ctx, mods, case):
